@@ -1,17 +1,27 @@
 """Minimal well-behaved S3-like endpoint on 127.0.0.1 serving a dict path -> bytes (C20: get_chunk from N threads).
 
 Unlike fixtures/s3fake.py (scripted failures, one payload) every object has its own content, so that threads reading
-different chunks can be told apart.  Bucket listings (`max-keys` in the query) answer with a one-key listing.
+different chunks can be told apart.  Bucket listings (`max-keys` in the query) answer per bucket: `buckets` maps the
+first path component to 'full' (a one-key listing; the default), 'empty' (a listing without keys) or 'missing' (404).
+`trunc` maps an object path to the number of its next GETs that are answered with the full Content-Length but only half
+of the body followed by an orderly close (the client sees IncompleteRead -> a read retry after a back-off sleep);
+`reset_faults()` restores the counters between runs.
 """
 import http.server
+import socket
 import threading
 
+LISTING_EMPTY = b'<?xml version="1.0"?><ListBucketResult><Name>b</Name></ListBucketResult>'
 LISTING = b'<?xml version="1.0"?><ListBucketResult><Name>b</Name><Contents><Key>k</Key></Contents></ListBucketResult>'
 
 
 class MiniS3:
-    def __init__(self, objects=None):
+    def __init__(self, objects=None, buckets=None, trunc=None):
         self.objects = dict(objects or {})
+        self.buckets = dict(buckets or {})
+        self.trunc0 = dict(trunc or {})
+        self.trunc = dict(self.trunc0)
+        self.flock = threading.Lock()
         self.log = []
         mini = self
 
@@ -24,17 +34,29 @@ class MiniS3:
             def do_GET(self):
                 path = self.path.split('?')[0]
                 mini.log.append(self.path)
+                cut = False
                 if 'max-keys' in self.path:
-                    body, status = LISTING, 200
+                    state = mini.buckets.get(path.strip('/').split('/')[0], 'full')
+                    body, status = {'full': (LISTING, 200), 'empty': (LISTING_EMPTY, 200)}.get(state, (b'', 404))
                 elif path in mini.objects:
                     body, status = mini.objects[path], 200
+                    with mini.flock:
+                        if mini.trunc.get(path, 0) > 0:
+                            mini.trunc[path] -= 1
+                            cut = True
                 else:
                     body, status = b'', 404
                 self.send_response(status)
                 self.send_header('Content-Length', str(len(body)))
                 self.end_headers()
-                self.wfile.write(body)
+                self.wfile.write(body[:len(body) // 2] if cut else body)
                 self.wfile.flush()
+                if cut:
+                    self.close_connection = True
+                    try:
+                        self.connection.shutdown(socket.SHUT_RDWR)
+                    except OSError:
+                        pass
 
         class S(http.server.ThreadingHTTPServer):
             daemon_threads = True
@@ -47,6 +69,10 @@ class MiniS3:
         self.url = 'http://127.0.0.1:%d' % self.srv.server_address[1]
         self.thread = threading.Thread(target=self.srv.serve_forever, kwargs={'poll_interval': 0.05}, daemon=True)
         self.thread.start()
+
+    def reset_faults(self):
+        with self.flock:
+            self.trunc = dict(self.trunc0)
 
     def close(self):
         self.srv.shutdown()
